@@ -154,4 +154,18 @@ CHECKS = {
         tests=[dict(name="TestC10Sched", quick=480, thorough=16000), dict(name="TestC10Conc", quick=96, thorough=4000),
                dict(name="TestC10Sched", quick=32, thorough=1200, variant="race"), dict(name="TestC10Conc", quick=16, thorough=640, variant="race")],
     ),
+    "C13": dict(
+        level="exploration",
+        rule="the same rapid-generated cases (same seed) are evaluated by three builds/settings of the package - AVX2 (default on this machine), SSE2 only (verif-tagged WEBP_VERIF_NOAVX2=1 switch) and portable Go (go build -overlay that removes every *_amd64.go/.s file and enables the !amd64 files) - and their result digests are compared line by line. "
+             "(pipeline) pictures x lossy/lossless option product -> Encode bytes + Decode samples; /verif-generated VP8 frames (incl. extreme coefficients) -> Decode samples. "
+             "(kernels) 40 internal/dsp and internal/lossy entry points (SSE/disto metrics, forward/inverse DCT and WHT in encoder and decoder forms, all 16x16/8x8/4x4 predictors and their direct forms, add/subtract green, inverse cross-colour, simple and complex loop filters at all thresholds, fancy upsampler incl. odd widths, dequantisation, YUV->RGB) on uniform-random, corner-value (0/1/127/128/254/255, +-2048, +-32767) and natural input blocks; decoder-side kernels get arbitrary int16 coefficients, encoder-side kernels coefficients in the range residuals of 8-bit pictures can produce. "
+             "(compilation) go build of every library package for a list of GOOS/GOARCH pairs (thorough: all pairs of `go tool dist list`). "
+             "Non-trivial: kernel output not all zero / any pipeline case; distinct = (kernel, input class, mode) and (codec, Method, size class, source type).",
+        assumptions=["arm64 (and any non-amd64) assembly can only be compiled here, not executed; 32-bit int behaviour is compiled, not executed",
+                     "encoder-side inverse transforms are only required to agree on coefficient ranges an 8-bit picture can produce"],
+        tests=[],
+        variants=[dict(name="avx2", variant="", env={}), dict(name="sse2", variant="", env={"WEBP_VERIF_NOAVX2": "1"}), dict(name="portable", variant="noasm", env={})],
+        differential=[dict(test="TestC13Pipe", quick=1600, thorough=40000), dict(test="TestC13Kern", quick=48000, thorough=4000000)],
+        compile_matrix=dict(quick=["linux/386", "linux/arm", "linux/arm64", "linux/s390x", "linux/riscv64", "linux/ppc64le", "windows/amd64", "windows/386", "darwin/arm64", "js/wasm", "freebsd/amd64", "linux/mips"], thorough="all"),
+    ),
 }
